@@ -20,7 +20,7 @@ Template language (lines starting with `//@` inside /verif/contracts/<unit>.vrs)
   //@ | subst <from> => <to>              textual substitution applied to the extracted text (listed in evidence); anchor lost if absent
   //@ | substopt <from> => <to>           same, but applied only if <from> occurs (listed in evidence when applied)
   //@ | substws <from> => <to>            same as subst, <from> matched modulo whitespace (multi-line constructs); substwsopt = optional
-  //@ | fragment span A ~~ B / closure N / tail M / let NAME   further fragment kinds, see rsextract.fragment
+  //@ | fragment span A ~~ B / closure N / tail M / let NAME / letclosure NAME   further fragment kinds, see rsextract.fragment
   //@ | novac                             do not generate the requires-satisfiability probe for this fn
   //@ | +<text>                           continuation of the previous clause
   //@ end
